@@ -161,6 +161,12 @@ function runJob (job) {
                   const t = frameOfLine('at ' + String(c))
                   if (typeof t.path === 'string' && isMine(t.path)) structured.push({ path: t.path, line: t.line, col: t.col, printed: true })
                 }
+                // a handler that names frames by getScriptNameOrSourceURL(): nothing (null) or the translated path,
+                // never the rewritten file's name next to the translated line
+                for (const c of cs) {
+                  const sn = c.getScriptNameOrSourceURL()
+                  if (typeof sn === 'string' && isMine(sn)) structured.push({ path: sn, line: c.getLineNumber(), col: c.getColumnNumber(), script_name: true })
+                }
                 structured = structured.concat(cs.map((c) => {
                   const f = { path: c.getFileName(), line: c.getLineNumber(), col: c.getColumnNumber() }
                   // a frame of eval'd code has no file name of its own: its position in the file is its eval origin
